@@ -263,8 +263,12 @@ impl<'a> Eval<'a> {
     pub fn c04(&self, ci: usize, v: &mut Vec<Violation>) -> bool {
         let Res::Path(p) = &self.out.calls[ci].res else { return false };
         let Some((prob, setup_ev)) = self.problem_at(ci) else { return false };
-        // premise: start and every goal sample within bounds
-        if !self.geo.in_bounds(&prob.starts[0]) {
+        // premise: start and every goal sample within bounds — judged with the harness's own
+        // excess function built from the scenario's bounds, never with the library's
+        // satisfies_bounds (which is part of what is under test)
+        let (_, ea) = self.geo.eps();
+        let tol = ea.max(1e-9);
+        if bounds_excess(&self.scn.space, &prob.starts[0]).0 > tol {
             return false;
         }
         let hi = self.out.calls[ci].ev_hi;
@@ -272,7 +276,7 @@ impl<'a> Eval<'a> {
         for e in &self.out.log[setup_ev..hi] {
             match e {
                 Ev::SG(Some(s)) => {
-                    if !self.geo.in_bounds(s) {
+                    if bounds_excess(&self.scn.space, s).0 > tol {
                         return false;
                     }
                     sampled.push(s);
@@ -281,10 +285,9 @@ impl<'a> Eval<'a> {
                 _ => {}
             }
         }
-        let (_, ea) = self.geo.eps();
         for (i, s) in p.iter().enumerate() {
             let (ex, kind) = bounds_excess(&self.scn.space, s);
-            if ex > ea.max(1e-9) && !self.geo.in_bounds(s) {
+            if ex > tol {
                 let origin = if sampled.iter().any(|q| bits_eq(q, s)) { "sampled" } else { "interpolated" };
                 v.push(viol(
                     "C04",
